@@ -489,6 +489,9 @@ func (Implementation) Drotm(n int, x []float64, incX int, y []float64, incY int,
 	if incY == 0 {
 		panic(zeroIncY)
 	}
+	if p.Flag < blas.Identity || p.Flag > blas.Diagonal {
+		panic(badFlag)
+	}
 	if n <= 0 {
 		if n == 0 {
 			return
